@@ -489,28 +489,26 @@ func (p *Project) WithSelectedServices(names []string, options ...DependencyOpti
 		return nil, err
 	}
 
-	// Disable all services which are not explicit target or dependencies
-	enabled := Services{}
-	// visit services in a fixed order: disabling a service strips the dependencies other *enabled*
-	// services have on it, so the result would otherwise depend on map iteration order
-	services := newProject.Services
-	for _, name := range utils.MapKeys(services) {
-		s := services[name]
-		if _, ok := set[name]; ok {
-			// remove all dependencies but those implied by explicitly selected services
-			dependencies := s.DependsOn
-			for d := range dependencies {
-				if _, ok := set[d]; !ok {
-					delete(dependencies, d)
-				}
-			}
-			s.DependsOn = dependencies
-			enabled[name] = s
-		} else {
-			newProject = newProject.WithServicesDisabled(name)
+	// Disable all services which are not explicit target or dependencies, all at once: a service that is
+	// set aside keeps its own definition, whatever else is set aside with it
+	var unselected []string
+	for _, name := range utils.MapKeys(newProject.Services) {
+		if _, ok := set[name]; !ok {
+			unselected = append(unselected, name)
 		}
 	}
-	newProject.Services = enabled
+	if len(unselected) > 0 {
+		newProject = newProject.WithServicesDisabled(unselected...)
+	}
+	for name, s := range newProject.Services {
+		// remove all dependencies but those implied by explicitly selected services
+		for d := range s.DependsOn {
+			if _, ok := set[d]; !ok {
+				delete(s.DependsOn, d)
+			}
+		}
+		newProject.Services[name] = s
+	}
 	return newProject, nil
 }
 
@@ -524,17 +522,21 @@ func (p *Project) WithServicesDisabled(names ...string) *Project {
 	if newProject.DisabledServices == nil {
 		newProject.DisabledServices = Services{}
 	}
+	// first set the services aside, as they are ...
 	for _, name := range names {
-		// We should remove all dependencies which reference the disabled service
+		if service, ok := newProject.Services[name]; ok {
+			newProject.DisabledServices[name] = service
+			delete(newProject.Services, name)
+		}
+	}
+	// ... then remove the dependencies the remaining services have on them. (Doing both name by name
+	// edited the services disabled later in the list, or not, depending on the order of the names.)
+	for _, name := range names {
 		for i, s := range newProject.Services {
 			if _, ok := s.DependsOn[name]; ok {
 				delete(s.DependsOn, name)
 				newProject.Services[i] = s
 			}
-		}
-		if service, ok := newProject.Services[name]; ok {
-			newProject.DisabledServices[name] = service
-			delete(newProject.Services, name)
 		}
 	}
 	return newProject
